@@ -105,6 +105,8 @@ pub enum What {
     Event,
     /// probe p reacting inside its handler for message kind
     React(u8, MK),
+    /// probe p: second action inside the same handler invocation (after a Pull)
+    React2(u8, MK),
     /// puppet subscription: greet now or later
     Greet(u16),
     /// puppet subscription: greeting burst step
